@@ -286,7 +286,16 @@ def run_products(job):
             calls.append((f"set_quick_timer({tt.name}, 07:15)", lambda at, acs, zs, tt=tt: (lambda: acs[1].set_quick_timer(tt, datetime.time(7, 15)))))
             calls.append((f"clear_quick_timer({tt.name})", lambda at, acs, zs, tt=tt: (lambda: acs[1].clear_quick_timer(tt))))
         calls.append(("check_for_updates", lambda at, acs, zs: at.check_for_updates))
+        # the same timer requests again, after the consoles reported two different timers
+        calls.append(("<report timers on=06:30 off=22:30>", None))
+        for tt in A.AcTimerType:
+            calls.append((f"set_quick_timer({tt.name}, 07:15) with other timer set", lambda at, acs, zs, tt=tt: (lambda: acs[1].set_quick_timer(tt, datetime.time(7, 15)))))
+            calls.append((f"clear_quick_timer({tt.name}) with other timer set", lambda at, acs, zs, tt=tt: (lambda: acs[1].clear_quick_timer(tt))))
         for label, fn in calls:
+            if fn is None:
+                p.astate["timer"][1] = {"on": {"disabled": False, "hour": 6, "minute": 30}, "off": {"disabled": False, "hour": 22, "minute": 30}}
+                p.push_status("timer")
+                continue
             n += 1
             r = p.command(label, fn)
             if r:
